@@ -111,19 +111,35 @@ class World:
         self.events.append(e)
 
     # ------------------------------------------------------------------ collectives
+    def _call_site(self):
+        """the torchsnapshot function that issued the collective (two ranks pairing the same KIND of collective from
+        different call sites exchange unrelated payloads: with real gloo that is silent corruption)"""
+        import sys
+        f = sys._getframe(2)
+        while f is not None:
+            fn = f.f_code.co_filename
+            if "torchsnapshot" in fn and not fn.endswith("pg_wrapper.py"):
+                return f"{fn.rsplit('/', 1)[-1]}:{f.f_code.co_name}"
+            f = f.f_back
+        return "?"
+
     def collective(self, kind, payload):
         r = self.rank()
+        site = self._call_site()
         self.sched.point(f"coll:{kind}")
         self.coll_log[r].append(kind)
-        self.event("collective", coll=kind)
+        self.event("collective", coll=kind, site=site)
         gen = self._gen
-        self._slots[r] = (kind, payload)
+        kind_site = f"{kind}@{site}"
+        self._slots[r] = (kind_site, payload)
         if len(self._slots) == self.W:
             kinds = {k for k, _ in self._slots.values()}
             if len(kinds) > 1:
                 self._results[gen] = ("mismatch", {q: k for q, (k, _) in self._slots.items()})
             else:
-                self._results[gen] = ("ok", {q: pickle.loads(pickle.dumps(p)) for q, (_, p) in self._slots.items()})
+                # pickled once; every rank unpickles its OWN copy below (object collectives never share objects
+                # between ranks - code that mutates a gathered object must not affect its peers)
+                self._results[gen] = ("ok", pickle.dumps({q: p for q, (_, p) in self._slots.items()}))
             self._slots = {}
             self._gen += 1
         else:
@@ -132,7 +148,7 @@ class World:
         if st != "ok":
             raise CollectiveMismatch(f"collective mismatch: {res}")
         self.event("collective_done", coll=kind)
-        return res
+        return pickle.loads(res)
 
     # ------------------------------------------------------------------ patching
     @contextlib.contextmanager
